@@ -821,3 +821,233 @@ theorem batchStep2_spec {fuel : Nat} {c c' : Cache} {pd : PD} {U : List KeyRange
                 exact this.2.2 u' hu' k hu1 hu2
 
 end CGV.Region
+
+namespace CGV.Region
+open CGV
+
+/-! ## more request ranges than one PD request takes: needs PD's contract -/
+
+/-- PD's contract for BatchScanRegions as far as it is needed: every returned region starts before the end of one of
+    the REQUESTED ranges (PD does not answer with regions lying entirely beyond what it was asked for) -/
+def PDWithin (pd : PD) : Prop :=
+  ∀ (rs : List KeyRange) (limit : Nat), ValidRangesP rs → ∀ p ∈ pd.batchScanRegions rs limit,
+    ∃ r ∈ rs, r.end_ = [] ∨ Bytes.lt p.r.start r.end_ = true
+
+theorem validRangesP_prefix {a b : List KeyRange} (h : ValidRangesP (a ++ b)) : ValidRangesP a := by
+  induction a with
+  | nil => simp [ValidRangesP]
+  | cons x xs ih =>
+    cases xs with
+    | nil =>
+      simp only [ValidRangesP]
+      exact (validRanges_head (by simpa using h)).1
+    | cons y ys =>
+      simp only [List.cons_append, ValidRangesP] at h ⊢
+      exact ⟨h.1, h.2.1, ih (by simpa using h.2.2)⟩
+
+theorem validRangesP_append_sep {a b : List KeyRange} (h : ValidRangesP (a ++ b)) :
+    ∀ x ∈ a, ∀ y ∈ b, x.end_ ≠ [] ∧ Bytes.le x.end_ y.start = true := by
+  induction a with
+  | nil => intro x hx; cases hx
+  | cons x0 xs ih =>
+    intro x hx y hy
+    rcases List.mem_cons.mp hx with rfl | hx
+    · exact (validRanges_head (by simpa using h)).2 y (List.mem_append_right _ hy)
+    · exact ih (validRangesP_tail (by simpa using h)) x hx y hy
+
+theorem batchLoad_from_pd {c c1 : Cache} {pd : PD} {rs : List KeyRange} {limit : Nat} {batch : List Entry}
+    (hne : rs ≠ []) (h : batchLoadRegionsWithKeyRanges c pd rs limit = (c1, .ok batch)) :
+    batch = (pd.batchScanRegions rs limit).map (·.toEntry) := by
+  unfold batchLoadRegionsWithKeyRanges at h
+  cases rs with
+  | nil => exact absurd rfl hne
+  | cons r0 rest =>
+    simp only at h
+    split at h
+    · cases h
+    · rename_i xs hxs
+      simp only [Prod.mk.injEq, Except.ok.injEq] at h
+      obtain ⟨_, rfl⟩ := h
+      unfold batchScanRegions at hxs
+      simp only at hxs
+      split at hxs
+      · cases hxs
+      · split at hxs
+        · cases hxs
+        · cases hxs; rfl
+
+theorem batchStep2_spec_pd {fuel : Nat} {c c' : Cache} {pd : PD} (hpd : PDWithin pd) {U : List KeyRange}
+    {m m' : Merger} {C0 : List Region}
+    (h : batchStep2 fuel c pd U m = (c', .ok m')) (hinv : MergerInv C0 m) (hv : ValidRangesP U) :
+    MergerInv C0 m' ∧ (∀ x ∈ m.merged, x ∈ m'.merged) ∧ ∀ u ∈ U, Covers m'.merged u.start u.end_ := by
+  induction fuel generalizing c U m with
+  | zero =>
+    simp only [batchStep2] at h
+    split at h
+    · rename_i he
+      simp only [Prod.mk.injEq, Except.ok.injEq] at h
+      rw [← h.2]
+      have : U = [] := by simpa using he
+      subst this
+      exact ⟨hinv, fun x hx => hx, by intro u hu; cases hu⟩
+    · simp at h
+  | succ n ih =>
+    by_cases hlen : U.length ≤ 16 * limitPerBatch
+    · exact batchStep2_spec h hinv hv hlen
+    · have hgt : U.length > 16 * limitPerBatch := by omega
+      have hUne : U ≠ [] := by intro h0; rw [h0] at hgt; simp at hgt
+      have hUe : U.isEmpty = false := by cases U <;> simp_all
+      simp only [batchStep2, hUe, Bool.false_eq_true, if_false, hgt, if_true] at h
+      have hNpos : 0 < 16 * limitPerBatch := by simp [limitPerBatch, Gen.defaultRegionsPerBatch]
+      have hdec : U = U.take (16 * limitPerBatch) ++ U.drop (16 * limitPerBatch) := (List.take_append_drop _ _).symm
+      cases hts : U.take (16 * limitPerBatch) with
+      | nil =>
+        exfalso
+        have := congrArg List.length hts
+        simp only [List.length_take, List.length_nil] at this
+        omega
+      | cons t0 trest =>
+        rw [hts] at h
+        cases hb : batchLoadRegionsWithKeyRanges c pd (t0 :: trest) limitPerBatch with
+        | mk c1 res =>
+          rw [hb] at h
+          cases res with
+          | error x => simp at h
+          | ok batch =>
+            simp only at h
+            cases hl : batch.getLast? with
+            | none => rw [hl] at h; simp at h
+            | some lastR =>
+              rw [hl] at h
+              simp only at h
+              rw [foldl_appendRegion_entries] at h
+              obtain ⟨i1, i2, i3⟩ := foldl_appendRegion_inv (batch.map (·.r)) hinv
+              have hlm : lastR ∈ batch := getLast?_mem hl
+              have hmem : lastR.r ∈ batch.map (·.r) := List.mem_map.mpr ⟨lastR, hlm, rfl⟩
+              have hvS : ValidRangesP (t0 :: trest) := by
+                rw [← hts]; exact validRangesP_prefix (by rw [← hdec]; exact hv)
+              have hh := validRanges_head hvS
+              -- every key of every uncached range: in a loaded region, or at/after the bounded end of the last one
+              have hq : ∀ u ∈ U, ∀ k, Bytes.le u.start k = true → InR u.end_ k →
+                  (∃ l ∈ batch.map (·.r), l.contains k = true) ∨
+                    (lastR.r.endKey ≠ [] ∧ Bytes.le lastR.r.endKey k = true) := by
+                intro u hu k hk1 hk2
+                rw [hdec] at hu
+                rcases List.mem_append.mp hu with hut | hud
+                · rw [hts] at hut
+                  have : PK (batch.map (·.r)) k := by
+                    apply gapLoop_multi (batchLoad_spec hb) hvS (le_refl _) hh.1 u hut k hk1 hk2
+                    rcases List.mem_cons.mp hut with rfl | hur
+                    · exact hk1
+                    · have := hh.2 u hur
+                      rcases hh.1 with h0 | h0
+                      · exact absurd h0 this.1
+                      · exact le_trans (le_of_lt (lt_of_lt_of_le h0 this.2)) hk1
+                  rcases this with hc | hall
+                  · exact Or.inl hc
+                  · exact Or.inr (hall _ hmem)
+                · -- an unsent range: PD's last region starts before the end of a sent range, hence before u
+                  have hbp := batchLoad_from_pd (by simp) hb
+                  rw [hbp] at hlm
+                  obtain ⟨pl, hpl, rfl⟩ := List.mem_map.mp hlm
+                  obtain ⟨r, hr, hre⟩ := hpd (t0 :: trest) limitPerBatch hvS pl hpl
+                  have hsep := validRangesP_append_sep (by rw [← hdec]; exact hv) r (by rw [hts]; exact hr) u hud
+                  have hls : Bytes.le pl.toEntry.r.start k = true := by
+                    rcases hre with h0 | h0
+                    · exact absurd h0 hsep.1
+                    · exact le_trans (le_of_lt (lt_of_lt_of_le h0 hsep.2)) hk1
+                  by_cases hunb : pl.toEntry.r.endKey = []
+                  · exact Or.inl ⟨_, hmem, contains_of_bounds hls (Or.inl hunb)⟩
+                  · rcases le_total pl.toEntry.r.endKey k with hge | hlt
+                    · exact Or.inr ⟨hunb, hge⟩
+                    · exact Or.inl ⟨_, hmem, contains_of_bounds hls (Or.inr hlt)⟩
+              by_cases hsk : lastR.r.endKey = []
+              · rw [hsk, rangesAfterKey_nil_key, batchStep2_nil] at h
+                simp only [Prod.mk.injEq, Except.ok.injEq] at h
+                rw [← h.2]
+                refine ⟨i1, i2, ?_⟩
+                intro u hu k hk1 hk2
+                rcases hq u hu k hk1 hk2 with ⟨l, hl', hlc⟩ | hall
+                · exact ⟨l, i3 l hl', hlc⟩
+                · exact absurd hsk hall.1
+              · obtain ⟨r1, _, r3⟩ := rangesAfterKey_spec hv hsk
+                have := ih h i1 r1
+                refine ⟨this.1, fun x hx => this.2.1 x (i2 x hx), ?_⟩
+                intro u hu k hk1 hk2
+                rcases hq u hu k hk1 hk2 with ⟨l, hl', hlc⟩ | hall
+                · exact ⟨l, this.2.1 l (i3 l hl'), hlc⟩
+                · obtain ⟨u', hu', hu1, hu2⟩ := r3 u hu k hk1 hk2 hall.2
+                  exact this.2.2 u' hu' k hu1 hu2
+
+end CGV.Region
+
+namespace CGV.Region
+open CGV
+
+theorem scanRegions_sub (pd : PD) (s e : Bytes) (limit : Nat) : ∀ p ∈ pd.scanRegions s e limit, p ∈ pd := by
+  have hsub : (pd.scanRegions s e limit).Sublist pd := by
+    unfold PD.scanRegions
+    simp only
+    repeat' split
+    all_goals first
+      | exact List.dropWhile_sublist _
+      | exact (List.takeWhile_sublist _).trans (List.dropWhile_sublist _)
+      | exact (List.take_sublist _ _).trans (List.dropWhile_sublist _)
+      | exact (List.take_sublist _ _).trans ((List.takeWhile_sublist _).trans (List.dropWhile_sublist _))
+  exact fun p hp => hsub.subset hp
+
+theorem batchScanAux_sub (pd : PD) (limit : Nat) (rs : List KeyRange) (acc : List PdRegion) :
+    ∀ p ∈ pd.batchScanAux limit rs acc, p ∈ acc ∨ p ∈ pd := by
+  induction rs generalizing acc with
+  | nil => intro p hp; exact Or.inl hp
+  | cons kr rest ih =>
+    intro p hp
+    simp only [PD.batchScanAux] at hp
+    have hf : ∀ (xs : List PdRegion) (a : List PdRegion), (∀ x ∈ xs, x ∈ pd) →
+        ∀ q ∈ xs.foldl (fun a r =>
+          if limit > 0 && a.length ≥ limit then a
+          else match a.getLast? with
+            | some l => if l.r.id == r.r.id then a else a ++ [r]
+            | none => a ++ [r]) a, q ∈ a ∨ q ∈ pd := by
+      intro xs
+      induction xs with
+      | nil => intro a _ q hq; exact Or.inl hq
+      | cons x xs ihx =>
+        intro a hxs q hq
+        simp only [List.foldl_cons] at hq
+        have := ihx _ (fun y hy => hxs y (List.mem_cons_of_mem _ hy)) q hq
+        rcases this with h | h
+        · split at h
+          · exact Or.inl h
+          · split at h
+            · split at h
+              · exact Or.inl h
+              · rcases List.mem_append.mp h with h | h
+                · exact Or.inl h
+                · simp only [List.mem_singleton] at h
+                  subst h; exact Or.inr (hxs _ (List.mem_cons_self ..))
+            · rcases List.mem_append.mp h with h | h
+              · exact Or.inl h
+              · simp only [List.mem_singleton] at h
+                subst h; exact Or.inr (hxs _ (List.mem_cons_self ..))
+        · exact Or.inr h
+    rcases ih _ p hp with h | h
+    · exact hf _ acc (scanRegions_sub pd _ _ 0) p h
+    · exact Or.inr h
+
+/-- the contract holds for a PD whose regions all start at -∞ (in particular the one-region layout) -/
+theorem pdWithin_of_starts_nil {pd : PD} (h : ∀ p ∈ pd, p.r.start = []) : PDWithin pd := by
+  intro rs limit _ p hp
+  unfold PD.batchScanRegions at hp
+  cases rs with
+  | nil => simp [PD.batchScanAux] at hp
+  | cons r rest =>
+    refine ⟨r, List.mem_cons_self .., ?_⟩
+    rcases batchScanAux_sub pd limit (r :: rest) [] p hp with h0 | h0
+    · cases h0
+    · rw [h p h0]
+      cases he : r.end_ with
+      | nil => left; rfl
+      | cons a as => right; simp [Bytes.lt, Bytes.cmp]
+
+end CGV.Region
